@@ -181,3 +181,13 @@ def mc(ctx):
 
 
 RULES.append(mc)
+
+
+@rule("O6", doc="the strong shape minimises over the FULL product of the children's groups (all_perms of every child), whatever order the symmetries were learned in (C04.M3b/M3c)")
+def o6(ctx):
+    from . import c04
+    c04.m3b(ctx)
+    c04.m3c(ctx)
+
+
+RULES.append(o6)
